@@ -65,7 +65,7 @@ def parse_log(text):
             fns.add(m2.group(1))
     res["functions"] = sorted(f for f in fns if not f.startswith(("core::", "kani::", "<usize as kani", "std::", "alloc::")))
     res["unsupported_reachable"] = [c for c in checks if "unsupported_construct" in c["name"] and c["status"] != "SUCCESS"]
-    res["oom"] = ("std::bad_alloc" in text) or ("Out of memory" in text) or ("memory allocation of" in text)
+    res["oom"] = ("std::bad_alloc" in text) or ("Out of memory" in text) or ("memory allocation of" in text) or ("Solver ran out of memory" in text)
     res["compile_error"] = bool(re.search(r"^error(\[E\d+\])?:", text, re.M)) and not checks
     return res
 
